@@ -279,6 +279,28 @@ func Check(r *ev.Run, replay string) {
 		})
 		r.Set("deeply_nested_programs", len(deep))
 	}
+	// forward jumps of every distance in a window around 65535 words, the largest a two-byte operand holds (and the
+	// value the compiler writes as a placeholder before it knows the distance): a conditional body, and an else
+	// branch, sized by statements of three words and of two
+	{
+		var far []progen.Program
+		for n := 21836; n <= 21848; n++ {
+			for k := 0; k <= 2; k++ {
+				body := strings.Repeat("x\n", n) + strings.Repeat("nil\n", k)
+				far = append(far, progen.Program{Fam: "far-jump-if", Raw: "x := 1\nc := false\nif c {\n" + body + "}\n7"},
+					progen.Program{Fam: "far-jump-if-taken", Raw: "x := 1\nc := true\nif c {\n" + body + "}\n7"},
+					progen.Program{Fam: "far-jump-else", Raw: "x := 1\nc := true\nif c {\nx\n} else {\n" + body + "}\n7"})
+			}
+		}
+		envs := make([]*rt.Env, 16)
+		ev.ParFor(16, func(w int) {
+			envs[w] = rt.NewEnv(nil)
+			for i := w; i < len(far); i += 16 {
+				one(r, envs[w], far[i], st, false)
+			}
+		})
+		r.Set("far_jump_programs", len(far))
+	}
 	r.Set("programs_compiled", int(st.compiled))
 	r.Set("programs_rejected_by_compiler_skipped", int(st.rejected))
 	r.Set("programs_run_side_by_side", int(st.ran))
@@ -295,5 +317,5 @@ func Check(r *ev.Run, replay string) {
 		})
 		r.Set("incremental_sessions", len(ss))
 	}
-	r.Set("rule", "every program of the shared corpus (control skeletons, operators, functions, scoping, containers/strings, errors/defer, closures to depth 3/5, every constant kind and escape): compile, MarshalCode twice (deterministic), compile again (same bytes), UnmarshalCode (never fails), MarshalCode again (same bytes), run original and reloaded code on fresh VMs (same value, error class/message, output); afterwards the original marshals to the same bytes again, and a second load of the bytes and a second run of the first load behave like the first run; plus the code accumulated by one compiler over every sequence of <= 3 inputs from an 11-piece alphabet (accepted inputs and inputs rejected at the top level, inside a function literal, a named function, a block): marshal, unmarshal, re-marshal, run both; plus five block forms nested 500..4999 levels deep (the marshaller may decline, what it produces must load); distinct = distinct (family, outcome) pairs")
+	r.Set("rule", "every program of the shared corpus (control skeletons, operators, functions, scoping, containers/strings, errors/defer, closures to depth 3/5, every constant kind and escape): compile, MarshalCode twice (deterministic), compile again (same bytes), UnmarshalCode (never fails), MarshalCode again (same bytes), run original and reloaded code on fresh VMs (same value, error class/message, output); afterwards the original marshals to the same bytes again, and a second load of the bytes and a second run of the first load behave like the first run; plus the code accumulated by one compiler over every sequence of <= 3 inputs from an 11-piece alphabet (accepted inputs and inputs rejected at the top level, inside a function literal, a named function, a block): marshal, unmarshal, re-marshal, run both; plus five block forms nested 500..4999 levels deep (the marshaller may decline, what it produces must load) and 117 programs whose forward jumps cover every distance in a window around 65535 words; distinct = distinct (family, outcome) pairs")
 }
